@@ -259,7 +259,7 @@ def run_case(c):
 
     def add(sig, what):
         if c['parallel']:
-            sig, what = 'C11:parallel_init_labels', '[init.run_in_parallel; would be %s] %s' % (sig, what)
+            what = '[init.run_in_parallel] %s' % what          # F13 (labels of deferred initial points) is repaired: judged like any other run
         viol.append(dict(signature=sig, what=what, data=dict(data, signature=sig)))
 
     np.random.seed(c['np_seed'])
